@@ -96,6 +96,8 @@ SPEC_M.append(("ledger.protocol", "HSM2ProtocolLedger", [
     "report_comm_issue", "_error", "ensure_connection", "_get_pubkey", "_reset_advance_blockchain"]))
 SPEC_M.append(("ledger.hsm2dongle", "HSM2Dongle", [
     "_send_block_header", "_do_block_operation", "advance_blockchain", "update_ancestor"]))
+SPEC_M.append(("ledger.hsm2dongle", "HSM2Dongle", ["get_blockchain_state"]))
+SPEC_M.append(("ledger.protocol", "HSM2ProtocolLedger", ["_blockchain_state"]))
 SPEC_M.append(("ledger.protocol", "HSM2ProtocolLedger", [
     "_translate_advance_result", "_translate_update_ancestor_result", "_translate_sign_error",
     "_advance_blockchain", "_update_ancestor_block"]))
@@ -1258,6 +1260,8 @@ class FuncTr:
             if n == "sorted" and len(e.args) == 1 and len(e.keywords) == 1 and e.keywords[0].arg == "key" and self.M:
                 fn = self.callable_text(e.keywords[0].value, e)
                 return self.binds(e.args, lambda a: "py_sorted_by (%s) %s" % (fn, a[0]))
+            if n == "bool" and len(e.args) == 1 and not e.keywords:
+                return self.binds(e.args, lambda a: "POk (VBool (py_truth %s))" % a[0])
             if n == "range" and len(e.args) == 1 and not e.keywords:
                 return self.binds(e.args, lambda a: "py_range %s" % a[0])
             if n == "enumerate" and len(e.args) in (1, 2) and not e.keywords:
@@ -1354,6 +1358,14 @@ class FuncTr:
                 fn = self.G().method(cls2, f.attr)
                 args = self.resolve_callee_args(find_method(cls2)[f.attr][1], e, True)
                 return self.binds([f.value] + args, lambda a: self.L("%s %s" % (fn, " ".join(a))))
+            if f.attr == "items" and not e.args and not e.keywords:
+                obj = self.chain_const(f.value)
+                if obj is NOTCONST:
+                    obj = self.name_chain_const(f.value)
+                need(isinstance(obj, dict) and all(const_val(k_) and const_val(int(v_) if isinstance(v_, int) else v_)
+                                                   for k_, v_ in obj.items()), "items() of something that is not a constant dict", e)
+                return "POk (VList [%s])" % "; ".join(
+                    "VList [%s; %s]" % (const_val(k_), const_val(int(v_) if isinstance(v_, int) else v_)) for k_, v_ in obj.items())
             if f.attr == "get" and len(e.args) == 2 and not e.keywords:
                 return self.binds([f.value] + list(e.args), lambda a: "py_get_default %s %s %s" % (a[0], a[1], a[2]))
             if f.attr == "get" and len(e.args) == 1 and not e.keywords:
